@@ -135,6 +135,8 @@ class Translator:
             return f(*idx) if idx else z3.Const('sel_' + a[0], self.zsort(t.sort))
         if op == 'app':
             fname = a[0]
+            if fname == 'stopgrad':
+                return self.tr(a[1])        # identity on values
             zargs = [self.tr(x) for x in a[1:]]
             f = self.fn('f_' + fname, [x.sort() for x in zargs], self.zsort(t.sort))
             r = f(*zargs) if zargs else z3.Const('f_' + fname, self.zsort(t.sort))
